@@ -83,7 +83,7 @@ Definition bintegral (bf : basis) (lo hi : Qc) : Qc :=
   match bf with
   | BLag knots idx => lag_integral knots idx lo hi
   | BRLag knots idx => rl_integral knots idx
-  | BRLagMod p knots idx a b level => pintegral (rlm_poly p knots idx a b level) (rl_lo knots idx) (rl_hi knots idx)
+  | BRLagMod p knots idx a b level => pintegral (rlm_poly p knots idx a b level) (rlm_lo knots idx a level) (rlm_hi knots idx b level)
   | BBsp p knots k => piece_loop (bs_piece knots p k) knots k (k + p + 1) lo hi
   | BNak p idx level knots =>
       let '(s, e) := nak_range p idx level knots in piece_loop (nak_piece p idx level knots) knots s e lo hi
